@@ -265,7 +265,7 @@ def impl_unarmor(Armorable, PGPError, data):
         cl = 'N'
     else:
         cl = ('N' if m['hashes'] is None else ','.join(hx(latin(h)) for h in m['hashes'])) + '|' + hx(latin(m['cleartext']))
-    return 'OK %s %s %s %s %s %s' % (hx(latin(m['magic'])), hd, hx(m['body']), hn(m['crc']), '1' if warn else '0', cl)
+    return 'OK %s %s %s %s %s %s' % (hx(latin(m['magic'])), hd, hx(m['body']), hn(m['crc']) if m['crc'] is not None else 'NOCRC', '1' if warn else '0', cl)
 
 
 def make_blob_class(Armorable):
@@ -430,7 +430,14 @@ def _run(ctx, pgpy, d):
                 # property: a payload that does not match its CRC is reported (or the block is refused)
                 if got.startswith('OK'):
                     f = got.split(' ')
-                    body, crc, warn = unhx(f[3]), unhn(f[4]), f[5] == '1'
+                    body, crc, warn = unhx(f[3]), (unhn(f[4]) if f[4] != 'NOCRC' else None), f[5] == '1'
+                    if crc is None:
+                        # (the corrupted text once had a checksum line: reading it as a block WITHOUT one skips the check)
+                        if body != p:
+                            ctx.fail('corrupt', 'corrupted armor accepted as a block without checksum, payload differs', dict(case, got=got[:200]))
+                        else:
+                            ctx.fail('corrupt', 'damaged checksum line swallowed: block accepted as one without checksum, no warning', dict(case, got=got[:200]))
+                        continue
                     if not warn and not (body == p and crc == good_crc):
                         ctx.fail('corrupt', 'corrupted armor accepted without a CRC warning', dict(case, got=got[:200]))
                     if warn != (ref_crc24(body) != crc):
@@ -672,7 +679,7 @@ def replay(ctx, case):
                 return True
             if op == 'corrupt' and got.startswith('OK'):
                 f = got.split(' '); p = bytes.fromhex(case['p'])
-                return f[5] != '1' and not (unhx(f[3]) == p and unhn(f[4]) == ref_crc24(p))
+                return f[4] == 'NOCRC' or (f[5] != '1' and not (unhx(f[3]) == p and unhn(f[4]) == ref_crc24(p)))
             if op == 'unarmor' and 'hdrs' in case and 'p' not in case:
                 hs = [tuple(x) for x in case['hdrs']]
                 return not got.startswith('OK') or got.split(' ')[2] != (hdr_arg(hs) if hs else 'N')
